@@ -652,6 +652,38 @@ func setPath(doc any, path []any, v any) any {
 	return doc
 }
 
+// c08MergeSets: the module file sets of C07 (conflicts, malformed members, extensions) through the merger, in the
+// canonical layout and in one rotating uniform layout style: no panic, no hang, model xor error.
+func c08MergeSets(ctx *core.Ctx) {
+	styles := uniformStyles()
+	for i, fs := range mergeSets(false) {
+		if !ctx.Mine(i) {
+			continue
+		}
+		if ctx.Expired() {
+			ctx.Cap("wall-clock cap in module file sets")
+			return
+		}
+		for _, st := range []map[string]int{nil, styles[1+i%(len(styles)-1)]} {
+			files := renderFiles(fs.Files, st, nil)
+			mods := make([]transformer.ModuleFile, len(files))
+			for k, f := range files {
+				mods[k] = transformer.ModuleFile{Name: f.spec.Name, Contents: f.text}
+			}
+			ctx.Eval(1)
+			o := c08Call(func() (bool, error) { m, e := transformer.TransformModuleFilesToModel(mods, "1.2"); return m != nil, e })
+			var sb strings.Builder
+			for _, f := range files {
+				sb.WriteString("--- " + f.spec.Name + "\n" + f.text + "\n")
+			}
+			if !c08Judge(ctx, c08Case{Entry: "TransformModuleFilesToModel", Text: sb.String(), Mut: fs.Tag}, o) {
+				return
+			}
+			ctx.Flag("c08:module-file-sets")
+		}
+	}
+}
+
 func c08Run(ctx *core.Ctx) {
 	if ctx.Shard == 0 {
 		// the step instrumentation must be live
@@ -683,6 +715,7 @@ func c08Run(ctx *core.Ctx) {
 			base += gen.Pow(len(alpha), n)
 		}
 	}
+	c08MergeSets(ctx)
 	c08JSONYAML(ctx)
 	c08Faults(ctx)
 	c08Pump(ctx)
@@ -704,7 +737,7 @@ func init() {
 		Technique: "bounded exhaustive enumeration of texts and of protobuf fault combinations with a panic guard and a deterministic step-count horizon",
 		Run:       c08Run,
 		Finish: func(r *core.Result) error {
-			for _, f := range []string{"c08:steps-live", "c08:some-error", "c08:some-result", "c08:unlexable-rejected", "c08:fault-enumeration", "c08:pumped", "c08:json-replacement"} {
+			for _, f := range []string{"c08:steps-live", "c08:some-error", "c08:some-result", "c08:unlexable-rejected", "c08:fault-enumeration", "c08:pumped", "c08:json-replacement", "c08:module-file-sets"} {
 				if !r.Flags[f] {
 					return fmt.Errorf("C08: guard %q never exercised", f)
 				}
